@@ -40,7 +40,7 @@ type xb struct {
 	bp     ssa.Value  // the block position value the site marches (a struct-typed parameter)
 	B      *slotArr   // per-corner neighbour block positions
 
-	doneNext  map[*ssa.Phi]bool
+	doneNext  map[ssa.Value]bool
 	doneReset map[string]bool
 }
 
@@ -82,10 +82,10 @@ func axisOfField(fields [3]int, f int) int {
 
 func (x *xb) run() {
 	s := x.s
-	e0 := s.m.eval(nil)
+	e0 := s.root()
 	// cell coordinate roots from the corner position list (component form only)
 	vals := e0.slotVals(s.P, 0)
-	d := s.evalVec(e0, vals[0].val)
+	d := s.evalVec(vals[0].ev(e0), vals[0].val)
 	if !d.comps {
 		s.undecide("TAB-4", "corner:sampleIndex", s.P.Base.Pos(), "block-storage site whose corner positions are not built from three cell coordinates")
 		return
@@ -93,6 +93,9 @@ func (x *xb) run() {
 	for a := 0; a < 3; a++ {
 		x.roots[a] = d.comp[a].Base
 		x.bounds[a] = x.loopBound(d.comp[a].Base)
+		if ph, ok := d.comp[a].Base.V.(*ssa.Phi); ok && s.blockFn == nil {
+			s.blockFn = ph.Parent()
+		}
 	}
 	for _, arr := range []*slotArr{s.D, s.I} {
 		if arr.Opaque != "" || arr.N != 8 {
@@ -119,7 +122,7 @@ func (x *xb) loopBound(root baseKey) int64 {
 	if !ok || root.F >= 0 {
 		return -1
 	}
-	e := x.s.m.eval(nil)
+	e := x.s.root()
 	initOK, stepOK := false, false
 	for _, ed := range phi.Edges {
 		a := e.aff(ed)
@@ -135,7 +138,7 @@ func (x *xb) loopBound(root baseKey) int64 {
 		return -1
 	}
 	var loop *ssau.Loop
-	for _, l := range ssau.Loops(x.s.fn) {
+	for _, l := range ssau.Loops(phi.Parent()) {
 		if l.Header == phi.Block() {
 			loop = l
 		}
@@ -169,7 +172,7 @@ func (x *xb) loopBound(root baseKey) int64 {
 
 func (x *xb) corner(k int) {
 	s := x.s
-	e0 := s.m.eval(nil)
+	e0 := s.root()
 	ivals := e0.slotVals(s.I, k)
 	if len(ivals) == 0 {
 		s.undecide("TAB-4", fmt.Sprintf("corner[%d]:sampleIndex", k), s.I.Base.Pos(), "no definition of the sample index of this corner")
@@ -177,7 +180,14 @@ func (x *xb) corner(k int) {
 	}
 	nIdx, nInc := 0, 0
 	for _, sv := range ivals {
-		ek := e0.withEnv(sv.env)
+		ek := sv.ev(e0)
+		if sv.store.K >= 0 && s.m.deadDefault(s.I, sv.store) {
+			s.hold("TAB-4", fmt.Sprintf("corner[%d]:sampleIndex", k), sv.store.Store.Pos(), "default index is overwritten by the per-corner loop before every read (dead store): its content cannot matter")
+			if call, ok := sv.val.(*ssa.Call); ok {
+				s.deadCalls[call] = true
+			}
+			continue
+		}
 		call, ok := sv.val.(*ssa.Call)
 		if !ok || call.Call.StaticCallee() != x.p.index {
 			s.undecide("TAB-4", fmt.Sprintf("corner[%d]:sampleIndex", k), sv.store.Store.Pos(), "the sample index of a corner is not a call of the linear index function")
@@ -406,7 +416,7 @@ func (x *xb) blockField(e *evaluator, v ssa.Value) (blockFieldRef, bool) {
 		// range value spilled to a local: *b = *(&list[i])
 		defs := fieldDefs(b, fa.Field, u)
 		if len(defs) == 1 && defs[0].whole {
-			if sa, idx, ok := x.s.m.slotLoad(defs[0].val); ok {
+			if sa, idx, ok := e.slotLoad(defs[0].val); ok {
 				k := e.aff(idx)
 				if k.isConst() && x.isBlockList(sa) {
 					return blockFieldRef{field: fa.Field, cornerK: int(k.Off)}, true
@@ -414,7 +424,7 @@ func (x *xb) blockField(e *evaluator, v ssa.Value) (blockFieldRef, bool) {
 			}
 		}
 	case *ssa.IndexAddr:
-		if sa := x.s.m.arrOf(b.X); sa != nil {
+		if sa, _ := e.arr(b.X); sa != nil {
 			k := e.aff(b.Index)
 			if k.isConst() && x.isBlockList(sa) {
 				return blockFieldRef{field: fa.Field, cornerK: int(k.Off)}, true
@@ -441,10 +451,14 @@ func (x *xb) isBlockList(sa *slotArr) bool {
 // neighbour block position list, XB-2 for the "+1 on the last cell" guard.
 func (x *xb) blocks(k int) {
 	s := x.s
-	e0 := s.m.eval(nil)
+	e0 := s.root()
 	sub := fmt.Sprintf("corner[%d]:block", k)
 	for _, sv := range e0.slotVals(s.D, k) {
-		ek := e0.withEnv(sv.env)
+		ek := sv.ev(e0)
+		if sv.store.K >= 0 && s.m.deadDefault(s.D, sv.store) {
+			s.hold("XB-3", sub+":default", sv.store.Store.Pos(), "default block is overwritten by the per-corner loop before every read (dead store)")
+			continue
+		}
 		// value: *(&storage[blockIndex]) ; blockIndex = positions[key] (plain or comma-ok)
 		u, ok := sv.val.(*ssa.UnOp)
 		var ia *ssa.IndexAddr
@@ -491,7 +505,7 @@ func (x *xb) blocks(k int) {
 				s.undecide("XB-3", sub, sv.store.Store.Pos(), "the key of the block lookup has several definitions")
 				continue
 			}
-			sa, kidx, ok := s.m.slotLoad(defs[0])
+			sa, kidx, ok := ek.slotLoad(defs[0])
 			if !ok || !x.isBlockList(sa) {
 				s.undecide("XB-3", sub, sv.store.Store.Pos(), "the key of the block lookup is not an element of the per-corner block position list")
 				continue
@@ -588,15 +602,18 @@ func (x *xb) nextFlag(r affine, a int, fields [3]int) (int, string, string) {
 		}
 		return 0, "", ""
 	}
-	phi, ok := r.Base.V.(*ssa.Phi)
-	if !ok || r.Base.F >= 0 || r.Coef != 1 || r.Off != 0 || len(phi.Edges) != 2 {
+	if r.Base.F >= 0 || r.Coef != 1 || r.Off != 0 {
 		return 0, "block position component is neither blockPosition.f nor its conditional successor: " + r.String(), ""
 	}
-	e := s.m.eval(nil)
+	alts, keyV := x.alternatives(r.Base.V)
+	if len(alts) != 2 {
+		return 0, "block position component is neither blockPosition.f nor its conditional successor: " + r.String(), ""
+	}
 	sub := fmt.Sprintf("nextBlock%c", "XYZ"[a])
-	var plusEdge = -1
-	for i, ed := range phi.Edges {
-		ea := e.aff(ed)
+	var plus *nbAlt
+	for i := range alts {
+		al := &alts[i]
+		ea := al.ev.aff(al.val)
 		p, ok := ea.Base.V.(*ssa.Parameter)
 		if !ok || ea.Coef != 1 || ea.Base.F < 0 {
 			return 0, "neighbour block position is not built from blockPosition: " + ea.String(), ""
@@ -613,24 +630,26 @@ func (x *xb) nextFlag(r affine, a int, fields [3]int) (int, string, string) {
 		switch ea.Off {
 		case 0:
 		case 1:
-			plusEdge = i
+			plus = al
 		default:
 			return 0, fmt.Sprintf("neighbour block position is blockPosition.%c%+d (must be +1)", "XYZ"[a], ea.Off), "XB-2"
 		}
 	}
-	if plusEdge < 0 {
+	if plus == nil {
 		return 0, "", ""
 	}
+	e := plus.ev
+	pos0 := keyV.Pos()
 	// XB-2: the +1 edge is taken exactly under `cell coordinate a == bound−1`
-	if _, done := x.doneNext[phi]; !done {
+	if _, done := x.doneNext[keyV]; !done {
 		if x.doneNext == nil {
-			x.doneNext = map[*ssa.Phi]bool{}
+			x.doneNext = map[ssa.Value]bool{}
 		}
-		x.doneNext[phi] = true
-		guard := x.plusGuard(phi, plusEdge)
+		x.doneNext[keyV] = true
+		guard := x.plusGuard(plus.guardBlock, e)
 		switch {
 		case guard == nil:
-			s.undecide("XB-2", sub, phi.Pos(), "the condition under which the neighbouring block is selected was not recognised")
+			s.undecide("XB-2", sub, pos0, "the condition under which the neighbouring block is selected was not recognised")
 		default:
 			cmp := guard.cmp
 			l, rr := e.aff(cmp.X), e.aff(cmp.Y)
@@ -671,8 +690,7 @@ type plusGuard struct {
 
 // plusGuard finds the comparison that decides the +1 edge of the phi: the edge's
 // predecessor chain leads (through single-predecessor blocks) to the then-branch of an if.
-func (x *xb) plusGuard(phi *ssa.Phi, edge int) *plusGuard {
-	b := phi.Block().Preds[edge]
+func (x *xb) plusGuard(b *ssa.BasicBlock, e *evaluator) *plusGuard {
 	for depth := 0; depth < 6; depth++ {
 		iff, onTrue, ok := guardOf(b)
 		if !ok {
@@ -696,7 +714,6 @@ func (x *xb) plusGuard(phi *ssa.Phi, edge int) *plusGuard {
 			default:
 				return nil
 			}
-			e := x.s.m.eval(nil)
 			l, r := e.aff(cmp.X), e.aff(cmp.Y)
 			if (l.isConst() != r.isConst()) && (isRootPhi(l) || isRootPhi(r)) {
 				return g
@@ -715,10 +732,49 @@ func isRootPhi(a affine) bool {
 	return ok
 }
 
-// perCornerLoop: XB-4 — variable-index stores into the per-corner arrays run over all eight corners.
+// perCornerLoop: XB-4 — variable-index stores into the per-corner arrays run over all eight corners;
+// XB-6 — the samples are read only when that loop ran to completion.
 func (x *xb) perCornerLoop() {
 	s := x.s
 	seen := map[ssa.Value]bool{}
+	doneLoop := map[*ssa.BasicBlock]bool{}
+	for _, arr := range []*slotArr{s.D, s.I} {
+		for _, st := range arr.Stores {
+			if st.K >= 0 {
+				continue
+			}
+			var loop *ssau.Loop
+			for _, l := range ssau.Loops(st.Store.Parent()) {
+				if l.Blocks[st.Store.Block()] && (loop == nil || len(l.Blocks) < len(loop.Blocks)) {
+					loop = l
+				}
+			}
+			if loop == nil || doneLoop[loop.Header] {
+				continue
+			}
+			doneLoop[loop.Header] = true
+			okAll := true
+			n := 0
+			for _, a2 := range []*slotArr{s.D, s.I} {
+				for _, ld := range loadsOf(a2) {
+					if loop.Blocks[ld.Block()] || !loop.Header.Dominates(ld.Block()) {
+						continue
+					}
+					n++
+					if !s.m.loopCompletesBefore(loop, st.Store.Block(), ld.Block()) {
+						okAll = false
+					}
+				}
+			}
+			switch {
+			case n == 0:
+			case okAll:
+				s.hold("XB-6", "perCornerLoop:completes", st.Store.Pos(), fmt.Sprintf("%d reads of the per-corner blocks / indices are reachable only after the loop visited all corners (early exits set a flag that skips the cell)", n))
+			default:
+				s.violate("XB-6", "perCornerLoop:completes", st.Store.Pos(), "the per-corner blocks / indices are read although the loop that fills them may have stopped early (a neighbouring block is missing): the cell is triangulated from stale or default entries instead of being skipped")
+			}
+		}
+	}
 	for _, arr := range []*slotArr{s.D, s.I} {
 		for _, st := range arr.Stores {
 			if st.K >= 0 || seen[st.Idx] {
@@ -749,7 +805,7 @@ func (x *xb) blockOffset() {
 		s.undecide("XB-5", "blockOffset", s.emitPos, "several loop-invariant vectors are added to the emitted vertex")
 		return
 	}
-	e := s.m.eval(nil)
+	e := s.root()
 	d := s.evalVec(e, s.ksOffset[0])
 	pos := s.ksOffset[0].Pos()
 	if !d.comps {
@@ -786,3 +842,50 @@ func (x *xb) blockOffset() {
 }
 
 var _ = props.Get
+
+// nbAlt: one alternative value of a neighbour-block component, the block whose guard decides it, and the
+// evaluator (an entered helper, or the site) in which value and guard are read.
+type nbAlt struct {
+	val        ssa.Value
+	guardBlock *ssa.BasicBlock
+	ev         *evaluator
+}
+
+// alternatives: a two-way phi, or a call of an in-package helper that returns one of two values.
+func (x *xb) alternatives(v ssa.Value) ([]nbAlt, ssa.Value) {
+	root := x.s.root()
+	switch t := v.(type) {
+	case *ssa.Phi:
+		var out []nbAlt
+		for i, ed := range t.Edges {
+			out = append(out, nbAlt{ed, t.Block().Preds[i], root})
+		}
+		return out, t
+	case *ssa.Call:
+		callee := t.Call.StaticCallee()
+		if callee == nil || callee.Blocks == nil || callee.Pkg != x.s.fn.Pkg {
+			return nil, v
+		}
+		ev := root.enter(t)
+		if ret := singleReturn(callee); ret != nil && len(ret.Results) == 1 {
+			if phi, ok := ret.Results[0].(*ssa.Phi); ok {
+				var out []nbAlt
+				for i, ed := range phi.Edges {
+					out = append(out, nbAlt{ed, phi.Block().Preds[i], ev})
+				}
+				return out, t
+			}
+			return nil, v
+		}
+		var out []nbAlt
+		for _, b := range callee.Blocks {
+			for _, in := range b.Instrs {
+				if r, ok := in.(*ssa.Return); ok && len(r.Results) == 1 {
+					out = append(out, nbAlt{r.Results[0], b, ev})
+				}
+			}
+		}
+		return out, t
+	}
+	return nil, v
+}
